@@ -48,7 +48,10 @@ def run(tier, seed):
         "tags": r["tags"],
         "correspondence": {"heap": {"lines": r["lines"], "mismatches": len(r["mismatches"]), "type_histogram": r["hist"]},
                            "rg": {"cases": g["cases"], "lines": g["lines"], "mismatches": len(g["mismatches"]),
-                                  "copies": g["tags"].get("copy", 0)}},
+                                  "copies": g["tags"].get("copy", 0),
+                                  "copies_into_other_buffer": g["tags"].get("xcopy", 0) + g["tags"].get("xback", 0),
+                                  "nodes_created_by_them": g["tags"].get("xcopy.nodes", 0),
+                                  "skipped_cyclic_or_huge": g["tags"].get("xcopy.skipped-cyclic-or-huge", 0)}},
         "assumptions": ['offsets below 2^62'],
         "partial": ['types that hold references are rebuilt field-/item-wise: a theorem (C09_copy_shares_referents) for node classes (static structs of scalars, Ref and UnionRef fields) copied inside one buffer; copies into another buffer (duplicated referents) and references held in arrays / dynamic structs: executable heap model + oracle only; HybridClass.copy() is covered under C18'],
     }
